@@ -83,6 +83,8 @@ def cross_config(results):
     n = len(results[cfgs[0]])
     for k in range(n):
         case = results[cfgs[0]][k][0]
+        if any(results[cfg][k][2][0] == "ABANDONED" for cfg in cfgs):
+            continue
         ds = {cfg: digest(case, results[cfg][k][2][0]) for cfg in cfgs}
         ref = ds[cfgs[0]]
         for cfg in cfgs[1:]:
